@@ -81,7 +81,9 @@ func init() {
 	addRules("C19", "R-SIZECHECK", "R-FILEID-READ")
 	addRules("C10", "R-ADVANCE", "R-COMMITSET")
 	addRules("C12", "R-ADVANCE", "R-COMMITSET")
-	addRules("C11", "R-MERGE-ORDER")
+	addRules("C11", "R-MERGE-ORDER", "R-SIZEPAIR")
+	addRules("C10", "R-SIZEPAIR")
+	addRules("C19", "R-BOUNDS-LIVE")
 	reg("R-FILEID-READ", "Every read of DataFile.fileID is on DB.ActiveFile or on a DataFile whose fileID is assigned in the same function: NewDataFile leaves it 0, so any other handle claims to be segment 0.", ruleFileIDRead)
 	reg("R-BOUNDS-LIVE", "The functions that write BPTree.FirstKey/LastKey contain no tombstone or expiry test: a delete marker widens the key bounds (which become a sealed segment's lookup range in sparse mode) like any other record.", ruleBoundsLive)
 	reg("R-SIZECHECK", "Every comparison in the commit path that relates an Entry.Size() value to Options.SegmentSize compares them with no constant offset or scaling: an entry is accepted only if its encoded size fits into a segment.", ruleSizeCheck)
